@@ -18,6 +18,7 @@ import JanetModel.Depth.StackLemmas
 import JanetModel.Depth.Nest
 import JanetModel.Gen.Depth
 import JanetModel.Depth.GuardCert
+import JanetModel.Depth.FiberStackLemmas
 import JanetModel.Gen.DepthGuard
 import JanetModel.Gen.DepthStack
 namespace JanetModel.Props.C19
@@ -210,6 +211,74 @@ theorem cg_exemptions_certified :
     (JanetModel.Gen.DepthGuard.defsWriters.all (fun w => defsWritersAllowed.contains w) &&
      ["janet_asm1", "unmarshal_one_def", "janetc_value"].all (fun w => certifiedGuards.contains w)) = true := by
   decide +kernel
+
+
+/-! ### the fiber stack: `maxstack` bounds janet-level recursion with a catchable error (session 4) -/
+
+/-- ★ every sequence of VM operations (push / call / tail call / return, any length, any functions with at most `S`
+    slots) on a fresh fiber with `maxstack = M`: as long as no error has been raised, at most `max M 4 / 4` frames are
+    live, the stack start is within one frame of `max M 4`, the stack top is a valid int32 and the capacity never
+    exceeds max(initial, INT32_MAX) -/
+theorem fiber_stack_bounded (cap M S : Nat) (fn0 : Fn) (v0 v : VFiber) (ops : List VOp)
+    (hfit : Fits M S) (hs0 : fn0.slotcount ≤ S) (hnew : fiberNew cap fn0 M = some v0)
+    (hops : ∀ op ∈ ops, opFits S op) (hrun : vrun v0 ops = .ok v) :
+    FRAME * v.prev.length ≤ B M ∧ v.f.stackstart ≤ B M + S + FRAME ∧ v.f.stacktop ≤ INT32_MAX ∧
+      v.f.capacity ≤ max (if cap < 32 then 32 else cap) INT32_MAX := by
+  have hinv := vrun_inv hfit ops v0 v (fiberNew_inv hfit hs0 hnew) hops hrun
+  have hl := chain_len v.prev v.f.frame hinv.chain
+  have hfr := hinv.fr
+  refine ⟨Nat.le_trans hl hfr, ?_, ?_, ?_⟩
+  · simp only [FRAME]; exact hinv.ssb
+  · simp only [INT32_MAX]; exact hinv.t32
+  · simp only [INT32_MAX]; exact hinv.capb
+
+/-- ★ non-tail recursion deeper than `max M 4 / 4` frames cannot go on: every return-free operation sequence with
+    that many calls ends in one of the two catchable errors (`janet_panic("stack overflow")`, arity mismatch) -/
+theorem deep_recursion_raises (cap M S : Nat) (fn0 : Fn) (v0 : VFiber) (ops : List VOp)
+    (hfit : Fits M S) (hs0 : fn0.slotcount ≤ S) (hnew : fiberNew cap fn0 M = some v0)
+    (hops : ∀ op ∈ ops, opFits S op) (hnr : noRet ops) (hdeep : B M < FRAME * (nCalls ops + 1)) :
+    ∃ e, vrun v0 ops = .error e ∧ (e = "stack overflow" ∨ e = "arity") := by
+  cases hr : vrun v0 ops with
+  | error e => exact ⟨e, rfl, vrun_error_kinds ops v0 e hr⟩
+  | ok v =>
+    exfalso
+    have h1 := (fiber_stack_bounded cap M S fn0 v0 v ops hfit hs0 hnew hops hr).1
+    have h2 := vrun_frames_noRet ops v0 v hnr hr
+    have h3 : v0.prev.length = 1 := by
+      unfold fiberNew at hnew
+      simp only at hnew
+      cases hf : funcframe ⟨0, FRAME, FRAME, if cap < 32 then 32 else cap⟩ fn0 with
+      | none => rw [hf] at hnew; cases hnew
+      | some f' => rw [hf] at hnew; rw [← Option.some.inj hnew]; rfl
+    rw [h2, h3] at h1
+    simp only [FRAME] at h1 hdeep
+    omega
+
+/-- ★ no int32 overflow in the frame functions: in every state a run can reach, a call that passes the `maxstack`
+    test computes only quantities ≤ INT32_MAX (next stack top, doubled capacities, vararg tuple head) - provided
+    2·(max M 4 + 2S + 5) ≤ INT32_MAX.  (The DEFAULT maxstack INT32_MAX does not satisfy this: see notes.) -/
+theorem fiber_no_int32_overflow (cap M S : Nat) (fn0 fn : Fn) (v0 v : VFiber) (ops : List VOp)
+    (hfit : Fits M S) (hs0 : fn0.slotcount ≤ S) (hnew : fiberNew cap fn0 M = some v0)
+    (hops : ∀ op ∈ ops, opFits S op) (hrun : vrun v0 ops = .ok v)
+    (hchk : ¬ v.f.stacktop > v.maxstack) (hfn : fn.slotcount ≤ S ∧ fn.arity ≤ S) :
+    ∀ t ∈ callTemps v.f fn, t ≤ INT32_MAX := by
+  have hinv := vrun_inv hfit ops v0 v (fiberNew_inv hfit hs0 hnew) hops hrun
+  obtain ⟨ms, _, ss, top, fr, ssb, _, _⟩ := hinv
+  have hB1 := le_B M
+  unfold Fits at hfit
+  rw [ms] at hchk
+  intro t ht
+  simp only [callTemps, FRAME, List.mem_cons, List.mem_nil_iff, or_false] at ht
+  simp only [INT32_MAX]
+  rcases ht with ht | ht | ht | ht | ht | ht <;> subst ht <;> omega
+
+/-- non-vacuity: maxstack 1000, functions of up to 50 slots fit; a fresh fiber exists; the 4-slot self recursion with
+    one argument gets 123 frames deep on it and then raises "stack overflow"; with the default maxstack nothing fits -/
+example : Fits 1000 50 := by unfold Fits B FRAME; decide
+example : ¬ Fits 2147483647 0 := by unfold Fits B FRAME; decide
+example : (fiberNew 64 ⟨10, 0, 0, 0, false⟩ 1000).isSome = true := by decide
+example : (fiberNew 64 ⟨10, 0, 0, 0, false⟩ 1000).map (fun v => overflowDepth 2000 v 1 ⟨4, 1, 1, 1, false⟩)
+    = some (123, "stack overflow") := by decide +kernel
 
 /-! ### native stack bytes (session 3) -/
 
